@@ -378,6 +378,24 @@ def check(repo):
     rules.append(r6)
     from .c15 import check_prp_stateless
     check_prp_stateless(repo, r6)
+    # ... and the same for the algorithms built on them: a token or an index that can come out of something an earlier call
+    # left on the scheme object (a trapdoor cache that forgets the key, a table reused across set-ups) is not derived
+    # from this call's key and input, so the agreements above say nothing about it
+    from .c07 import Analyzer as _Analyzer
+    _an = _Analyzer(repo)
+    for s in schemes:
+        for mname in ("_Gen", "KeyGen", "_Enc", "EDBSetup", "_Trap", "TokenGen", "_Search", "Search"):
+            fi = s.cls.methods.get(mname)
+            if fi is None:
+                continue
+            hidden = [x for x in _an.sites(fi) if x[0] == ("self",)]
+            memo = [d for d in fi.decorators if any(k in d for k in ("cache", "memo"))]
+            if hidden or memo:
+                r6.fail_fn(fi, hidden[0][2] if hidden else fi.node, "%s keeps state on the scheme object" % mname,
+                           "%s.%s stores into the scheme object%s (%s): what it returns for one key or database can stem from a call made with another, "
+                           "and then the search does not find what the set-up stored" % (s.name, mname, " / is memoised" if memo else "", hidden[0][3] if hidden else memo[0]))
+            else:
+                r6.ok()
     r1.require(n_agree >= 20, schemes[0].method("_Enc"), "agreements floor", "only %d label/key/mask agreements established (expected >= 20)" % n_agree)
     _check_pi2lev_split(repo, r3, [s for s in schemes if s.name == "CJJ14.Pi2Lev"][0])
     _check_capacity(repo, r4, schemes)
